@@ -10,7 +10,7 @@ structure View where
   sub : Sub
   inW : Bool
   init : Bool
-  q : List Nat
+  q : List QI
   nregs : Nat
   calls : List Call
   futs : List (Nat × Nat × Fut)
@@ -22,7 +22,7 @@ def view (s : St) (c : Nat) : View :=
 
 def vTry (v : View) : View :=
   match v.sub.proc with
-  | .zombie st => { v with sub := { v.sub with proc := .reaped }, inW := false, q := v.q ++ [st] }
+  | .zombie st => { v with sub := { v.sub with proc := .reaped }, inW := false, q := v.q ++ [.status st] }
   | _ => v
 
 def vSet (c : Nat) (v : View) (st : Nat) : View :=
@@ -36,6 +36,14 @@ def vSet (c : Nat) (v : View) (st : Nat) : View :=
                calls := v.calls ++ [{ child := c, reg := r, code := code, cleared := true }],
                futs := v.futs ++ (match futOf m code with | some f => [(c, r, f)] | none => []) }
 
+def vLate (c : Nat) (v : View) (r : Nat) (m : Mode) (code : Int) : View :=
+  { v with calls := v.calls ++ [{ child := c, reg := r, code := code, cleared := v.sub.exitCb.isNone }],
+           futs := v.futs ++ (match futOf m code with | some f => [(c, r, f)] | none => []) }
+
+def vItem (c : Nat) (v : View) : QI → View
+  | .status st => vSet c v st
+  | .late r m code => vLate c v r m code
+
 def vstep (c : Nat) (v : View) : Op → View
   | .exit d st =>
     if d = c then
@@ -45,10 +53,13 @@ def vstep (c : Nat) (v : View) : Op → View
     else v
   | .reg d m =>
     if d = c then
+      match v.sub.returncode with
+      | some code => { v with nregs := v.nregs + 1, init := true, q := v.q ++ [.late v.nregs m code] }
+      | none =>
       vTry { v with sub := { v.sub with exitCb := some (v.nregs, m) }, nregs := v.nregs + 1, init := true, inW := true }
     else { v with nregs := v.nregs + 1, init := true }
   | .sigchld => if v.init && v.inW then vTry v else v
-  | .drain => v.q.foldl (vSet c) { v with q := [] }
+  | .drain => v.q.foldl (vItem c) { v with q := [] }
 
 theorem contains_filter_ne (l : List Nat) (c d : Nat) (h : d ≠ c) :
     (l.filter (· != d)).contains c = l.contains c := by
@@ -122,9 +133,34 @@ theorem view_setReturncode_self (s : St) (c st : Nat) : view (setReturncode s c 
       · simp [List.filter_cons]
       · cases futOf m code <;> simp [List.filter_cons]
 
-theorem view_drain_fold (l : List (Nat × Nat)) (s : St) (c : Nat) :
-    view (l.foldl (fun s e => setReturncode s e.1 e.2) s) c
-      = ((l.filter (fun e => e.1 == c)).map (·.2)).foldl (vSet c) (view s c) := by
+theorem view_runLate_ne (s : St) (c d r : Nat) (m : Mode) (code : Int) (h : d ≠ c) :
+    view (runLate s d r m code) c = view s c := by
+  have h1 : (d == c) = false := by simp [h]
+  simp only [view, runLate, List.filter_append]
+  congr 1
+  · simp [List.filter_cons, h1]
+  · cases futOf m code <;> simp [List.filter_cons, h1]
+
+theorem view_runLate_self (s : St) (c r : Nat) (m : Mode) (code : Int) :
+    view (runLate s c r m code) c = vLate c (view s c) r m code := by
+  simp only [view, runLate, vLate, List.filter_append]
+  congr 1
+  · simp [List.filter_cons]
+  · cases futOf m code <;> simp [List.filter_cons]
+
+theorem view_runItem_ne (s : St) (c d : Nat) (qi : QI) (h : d ≠ c) : view (runItem s d qi) c = view s c := by
+  cases qi with
+  | status st => exact view_setReturncode_ne s c d st h
+  | late r m code => exact view_runLate_ne s c d r m code h
+
+theorem view_runItem_self (s : St) (c : Nat) (qi : QI) : view (runItem s c qi) c = vItem c (view s c) qi := by
+  cases qi with
+  | status st => exact view_setReturncode_self s c st
+  | late r m code => exact view_runLate_self s c r m code
+
+theorem view_drain_fold (l : List (Nat × QI)) (s : St) (c : Nat) :
+    view (l.foldl (fun s e => runItem s e.1 e.2) s) c
+      = ((l.filter (fun e => e.1 == c)).map (·.2)).foldl (vItem c) (view s c) := by
   induction l generalizing s with
   | nil => rfl
   | cons e l ih =>
@@ -132,10 +168,10 @@ theorem view_drain_fold (l : List (Nat × Nat)) (s : St) (c : Nat) :
     by_cases he : e.1 = c
     · have : (e.1 == c) = true := by simp [he]
       simp only [List.filter_cons, this, ↓reduceIte, List.map_cons, List.foldl_cons]
-      rw [← he, view_setReturncode_self]
+      rw [← he, view_runItem_self]
     · have : (e.1 == c) = false := by simp [he]
       simp only [List.filter_cons, this, Bool.false_eq_true, ↓reduceIte]
-      rw [view_setReturncode_ne _ _ _ _ he]
+      rw [view_runItem_ne _ _ _ _ he]
 
 /-- **non-interference / projection**: the global step acts on child `c` exactly as the per-child machine -/
 theorem view_step (s : St) (op : Op) (c : Nat) : view (step s op) c = vstep c (view s c) op := by
@@ -151,14 +187,24 @@ theorem view_step (s : St) (op : Op) (c : Nat) : view (step s op) c = vstep c (v
   | reg d m =>
     by_cases hd : d = c
     · subst hd
-      simp only [step, vstep, ↓reduceIte, view_tryCleanup_self]
-      congr 1
-      by_cases hw : d ∈ s.waiting <;> simp [view, setSub, hw]
+      simp only [step, vstep, ↓reduceIte]
+      cases hrc : (s.subs d).returncode with
+      | some code =>
+        simp [view, List.filter_append, hrc]
+      | none =>
+        have hv : (view s d).sub.returncode = none := hrc
+        simp only [hv, view_tryCleanup_self]
+        congr 1
+        by_cases hw : d ∈ s.waiting <;> simp [view, setSub, hw]
     · have h2 : ¬ c = d := fun x => hd x.symm
       have h1 : (d == c) = false := by simp [hd]
       have h3 : (c == d) = false := by simp [h2]
-      simp only [step, vstep, hd, ↓reduceIte, view_tryCleanup_ne _ _ _ hd]
-      by_cases hw : d ∈ s.waiting <;> simp [view, setSub, hw, h2, h3]
+      simp only [step, vstep, hd, ↓reduceIte]
+      cases hrc : (s.subs d).returncode with
+      | some code => simp [view, List.filter_append, h1]
+      | none =>
+        simp only [view_tryCleanup_ne _ _ _ hd]
+        by_cases hw : d ∈ s.waiting <;> simp [view, setSub, hw, h2, h3]
   | sigchld =>
     simp only [step, vstep, cleanup]
     by_cases hi : s.initialized
